@@ -36,6 +36,7 @@ pub const PROGRAM_SLICES: [&str; 5] = ["gc", "heap", "heap-local", "fun", "mix"]
 
 fn run(sh: &mut Shard) {
     let tier = sh.cfg.tier;
+    gcprog::count_ladder(sh, "C03");
     heapmc::explore(sh, &bounds(tier), "C03");
     if !sh.running() {
         return;
